@@ -26,8 +26,8 @@ REQUIRED = ["C17.QuatRotate", "C17.QuatLength", "C17.QuatCompose", "C17.QuatAxis
 PARAMS = {
     "quick": dict(group_depth=4, mat_depth=2, mat_ks="{1}", mat_bound=4, mat_stride=3, mat_sim=8, mat_sim_depth=8,
                   wordlen=2, box_depth=3, real_n=150),
-    "thorough": dict(group_depth=6, mat_depth=3, mat_ks="{1}", mat_bound=6, mat_stride=2, mat_sim=200, mat_sim_depth=12,
-                     wordlen=3, box_depth=5, real_n=8000),
+    "thorough": dict(group_depth=6, mat_depth=3, mat_ks="{1}", mat_bound=6, mat_stride=2, mat_sim=400, mat_sim_depth=12,
+                     wordlen=3, box_depth=5, real_n=20000),
 }
 
 
